@@ -52,6 +52,8 @@ var c04Wide = append(append([]c04Operand{}, c04Operands...),
 	c04Operand{"float-0.5", c04V("fn05")},
 	c04Operand{"uint9", c04V("u9")},   // Go integers of unsigned kinds (plain uint is the first of its kind range)
 	c04Operand{"uint8-2", c04V("u82")},
+	c04Operand{"uint64-9", c04V("u649")},
+	c04Operand{"nil", func() rj.Expr { return rj.Nil() }},
 )
 
 func c04Mk(log *[]string) rj.Inputs {
@@ -60,7 +62,7 @@ func c04Mk(log *[]string) rj.Inputs {
 	}
 	return rj.Inputs{
 		Vars: map[string]interface{}{
-			"a7": 7, "a2": 2, "an3": -3, "an2": -2, "fn25": -2.5, "fn05": -0.5, "u9": uint(9), "u82": uint8(2), "a0": 0, "f25": 2.5, "f75": 7.5, "sAb": "ab", "s3": "3", "b5": int64(5), "g15": float32(1.5), "bigA": int64(1)<<62 + 1, "bigB": int64(1) << 62,
+			"a7": 7, "a2": 2, "an3": -3, "an2": -2, "fn25": -2.5, "fn05": -0.5, "u9": uint(9), "u82": uint8(2), "u649": uint64(9), "a0": 0, "f25": 2.5, "f75": 7.5, "sAb": "ab", "s3": "3", "b5": int64(5), "g15": float32(1.5), "bigA": int64(1)<<62 + 1, "bigB": int64(1) << 62,
 			"sl": []int{7, 2}, "id": func(x int) int { return x },
 			"pT": probe("pT", true), "pF": probe("pF", false), "qT": probe("qT", true), "qF": probe("qF", false),
 			"rT": probe("rT", true), "rF": probe("rF", false),
